@@ -76,6 +76,7 @@ def run_forward(spec, **kw):
             if orr.ok:
                 seams.attach(p)
                 seams.rerank(p, spec.get("ranks") or {})
+    tr.first_snap = D.snapshot(D.index(p))  # the state the first call (and the optional reload) left
     tr.log_offset = len(p.cost_list) if not hist["log"] else 0
     cfg2 = dict(spec["cfg"])
     cfg2["init_state"], cfg2["init_log"] = bool(hist["state"]), bool(hist["log"])
@@ -144,3 +145,42 @@ def base_result(tr):
 def finish(res, tr):
     res.digest = D.digest(D.dump(tr.project, tr.ix))
     return res
+
+
+def gen_edit(rng, spec, prob=0.12):
+    """Attach a log edit (insert_absence_time_list after the run) to a forward spec without history."""
+    if spec.get("history") is None and rng.random() < prob:
+        ed = sorted(set(rng.randint(0, 12) for _ in range(rng.randint(1, 3))))
+        spec["edit"] = ed
+    return spec
+
+
+def edit_candidates(spec):
+    if spec.get("edit"):
+        c = dict(spec)
+        c.pop("edit")
+        yield c
+        if len(spec["edit"]) > 1:
+            for i in range(len(spec["edit"])):
+                c = dict(spec)
+                c["edit"] = spec["edit"][:i] + spec["edit"][i + 1:]
+                yield c
+
+
+def apply_edit(tr, steps):
+    """insert_absence_time_list(steps) on the finished project of a trace; returns (outcome, marks) where marks[i] is
+    True iff log index i is an inserted step, or None if the edit was not applicable."""
+    p = tr.project
+    n0 = len(p.cost_list)
+    registered = list(p.absence_time_list)
+    new = []
+    ln = n0
+    for s_ in sorted(steps):
+        if s_ not in registered and s_ not in new and 0 <= s_ < ln:
+            new.append(s_)
+            ln += 1
+    o = D.call(lambda: p.insert_absence_time_list(list(steps)))
+    marks = [False] * n0
+    for s_ in new:
+        marks.insert(s_, True)
+    return o, marks
